@@ -41,14 +41,21 @@ func init() {
 			if mod != impl {
 				return []Finding{{Kind: "corr", Unit: "c01.reqhead", Class: "req_head", Impl: impl, Model: t.M.Call("req_head", buf)}}
 			}
+			if err == nil && !(len(in) > 1 && in.N(1) == 1) {
+				// connection persistence (RequestHeader.ConnectionClose), modelled for canonical stored names
+				ic := map[bool]string{true: "1", false: "0"}[h.ConnectionClose()]
+				if mc := t.M.Call("req_close", buf); mc != ic {
+					return []Finding{{Kind: "corr", Unit: "c01.reqhead", Class: "req_close", Impl: ic, Model: mc}}
+				}
+			}
 			return nil
 		},
 		Gen: func(t *T) {
 			methods := []string{"GET", "POST", "X", "", "G T"}
 			uris := []string{"/", "/a?b=1", "/a b", "*", "", "http://h/x"}
 			protos := []string{" HTTP/1.1", " HTTP/1.0", " HTTP/1.1 ", "", " http/1.1", " HTTP/2"}
-			names := []string{"Host", "content-length", "Content-Length", "CONTENT-LENGTH", "Transfer-Encoding", "transfer-encoding", "X-A", "Conten\tLength", "A b", "Connection", ""}
-			values := []string{"h", "5", "0", "12x", "", "chunked", "identity", "gzip, chunked", "close", "9223372036854775808", "a\x00b", "a\x7fb", "7 "}
+			names := []string{"Host", "content-length", "Content-Length", "CONTENT-LENGTH", "Transfer-Encoding", "transfer-encoding", "X-A", "Conten\tLength", "A b", "Connection", "connection", "CONNECTION", "Connection", ""}
+			values := []string{"h", "5", "0", "12x", "", "chunked", "identity", "gzip, chunked", "close", "keep-alive", "Keep-Alive", "x, keep-alive", " keep-alive ,y", "Close", "upgrade", "9223372036854775808", "a\x00b", "a\x7fb", "7 "}
 			eols := []string{"\r\n", "\r\n", "\r\n", "\n"}
 			alpha := []byte("a: \t\r\n-5G/")
 			for i := 0; i < t.Scale(6000, 150000); i++ {
